@@ -8,7 +8,7 @@ import functools, math, operator
 from fractions import Fraction
 import numpy as np
 from . import ir, sc
-from .ir import T, Unsupported, norm_num, Z
+from .ir import T, Unsupported, norm_num, Z, ZF
 from .sc import Ext, PYOPS, box, isinf, isnan
 from .engine import Engine, Prune
 
@@ -181,7 +181,14 @@ class MaskedVec:
     def __mul__(self, o): return self._bin(o, sc.mul)
     __rmul__ = __mul__
     def __truediv__(self, o): return self._bin(o, sc.div)
-    def __rtruediv__(self, o): return self._bin(o, lambda a, b: sc.div(b, a))
+    def __rtruediv__(self, o):
+        # only the selected cells are ever used: divide by 1 where the mask is false (keeps x/0 out of the dense view)
+        oo = norm_num(o) if not is_sym(o) else o
+        out = np.empty(self.dense.shape, dtype=object)
+        for idx in np.ndindex(out.shape):
+            m = sc.truth(self.mask[idx])
+            out[idx] = 0 if m is False else sc.div(oo, sc.ite(m, self.dense[idx], 1))
+        return MaskedVec(self.mask, out)
     def _conc(self):
         m = np.array([bool(v) for v in self.mask.flat], dtype=bool).reshape(self.mask.shape)
         return S(self.dense[m])
@@ -205,28 +212,45 @@ def lazy_get(arr, key):
     return MaskedVec(m, dense)
 
 def lazy_set(arr, key, val):
-    """arr[where-components] = val   as a cell-wise ite"""
+    """arr[where-components (and slices / ints)] = val   as a cell-wise ite, no fork"""
     a = plain(arr); dk = getattr(arr, 'dk', 'f')
     if not isinstance(key, tuple): key = (key,)
+    key = key + (slice(None),) * (a.ndim - len(key))
+    if len(key) != a.ndim: raise Unsupported('lazy_set index arity')
     lz = [k for k in key if isinstance(k, LazyIdx)]
     m = lz[0].mask
-    if any(k.mask is not m for k in lz): raise Unsupported('lazy_set with different masks')
-    if len(key) != a.ndim: raise Unsupported('lazy_set partial index')
+    paired = m.ndim == 2
+    if paired and (len(lz) != 2 or any(k.mask is not m for k in lz) or a.ndim != 2): raise Unsupported('lazy_set with a partial 2-D where')
+    if not paired and any(k.mask.ndim != 1 for k in lz): raise Unsupported('lazy_set mixing where results')
     if isinstance(val, MaskedVec):
-        if val.mask is not m: raise Unsupported('lazy_set value from different mask')
+        if not paired or val.mask is not m: raise Unsupported('lazy_set value from different mask')
         getv = lambda idx: val.dense[idx]
     elif isinstance(val, np.ndarray):
         if val.size != 1: raise Unsupported('lazy_set with array value')
         v0 = val.reshape(-1)[0]; getv = lambda idx: v0
     else:
         v0 = norm_num(val) if not is_sym(val) else val; getv = lambda idx: v0
-    for idx in np.ndindex(m.shape):
-        c = sc.truth(m[idx])
+    for idx in np.ndindex(a.shape):
+        conds = []; ok = True
+        for p, k in enumerate(key):
+            if isinstance(k, LazyIdx):
+                if not paired: conds.append(sc.truth(k.mask[idx[p]]))
+            elif isinstance(k, slice):
+                if idx[p] not in range(*k.indices(a.shape[p])): ok = False; break
+            elif isinstance(k, T): conds.append(ir.eq(k, idx[p]))
+            else:
+                kk = operator.index(k)
+                if kk < 0: kk += a.shape[p]
+                if kk != idx[p]: ok = False; break
+        if not ok: continue
+        if paired:
+            # key = (rows, cols) of one np.where(mask2d): position idx itself is selected iff mask[idx]
+            pos = tuple(idx[p] for p, k in enumerate(key) if isinstance(k, LazyIdx))
+            pos = pos if key[0].axis == 0 else pos[::-1]
+            conds.append(sc.truth(m[pos]))
+        c = ir.land(*conds) if conds else True
         if c is False: continue
-        kk = tuple((idx[k.axis] if isinstance(k, LazyIdx) else k) for k in key)
-        if has_sym_index(kk): raise Unsupported('lazy_set with symbolic scalar index')
-        kk = tuple(int(x) for x in kk)
-        a[kk] = sc.ite(c, coerce_store(getv(idx), dk), a[kk])
+        a[idx] = sc.ite(c, coerce_store(getv(idx), dk), a[idx])
 
 # ------------------------------------------------------------------ the array class
 class SymArray(np.ndarray):
@@ -341,6 +365,7 @@ class SymArray(np.ndarray):
             m = np.array([bool(v) for v in key.m.flat], dtype=bool).reshape(key.m.shape)   # forks on each bit
             return np.ndarray.__getitem__(self, m)
         r = np.ndarray.__getitem__(self, key)
+        if type(r) is Z and self.dk == 'f': return ZF(r)      # numpy would hand back a float64
         return r
 
     def __setitem__(self, key, val):
@@ -464,6 +489,7 @@ class FlatView:
     def __getitem__(s, k): return s._flat()[k]
     def __setitem__(s, k, v):
         p = plain(s.a)
+        if isinstance(v, np.ndarray) and v.ndim > 1: v = S(v).reshape(-1)      # numpy flattens the value
         if p.flags['C_CONTIGUOUS']: s._flat()[k] = v; return
         if has_sym_index(k): raise Unsupported('flat store with symbolic index on a non-contiguous array')
         f = s._flat(); f[k] = v
